@@ -125,9 +125,14 @@ Definition toy_bankrupt (signer bank : Z) (bw : tbw) (pf : tpf) : res (tbw * tpf
 Definition toy_other (d : ixd) (w : world tbw tpf) : res (tbw * list (patch tpf)) :=
   Err (E AE_INSTRUCTION_FALLBACK_NOT_FOUND).
 
+(* the engine handed no remaining accounts: the first active balance cannot be loaded (InvalidBankAccount);
+   an account without active balances passes (nothing to value); every entry of a tpf is an active balance *)
+Definition toy_init_check_norem (pf : tpf) : res unit :=
+  check (match pf with [] => true | _ => false end) (E E_InvalidBankAccount).
+
 Definition toy_env : env tbw tpf :=
   mkEnv toy_init_check toy_maint toy_equity toy_op toy_w_init toy_price_low toy_liquidate toy_bankrupt
-        [] toy_other.
+        [] toy_other toy_init_check_norem.
 
 Definition toy_exec_tx_r := @exec_tx_r tbw tpf toy_env.
 Definition toy_exec_tx := @exec_tx tbw tpf toy_env.
@@ -154,6 +159,9 @@ Definition mk_SF (a s e : Z) := ix_mfi DISP_SF 16 [a; s; K_SYSVAR] [e].
 Definition mk_EF (a s : Z) := ix_mfi DISP_EF 8 [a; s] [].
 (* end_flashloan of account a that also lists account x among its trailing (remaining) accounts *)
 Definition mk_EFX (a s x : Z) := ix_mfi DISP_EF 8 [a; s; x] [].
+(* end_flashloan WITHOUT remaining accounts (the marker argument is a modelling device: the real instruction has no arguments,
+   what differs is its account list) *)
+Definition mk_EFN (a s : Z) := ix_mfi DISP_EF 8 [a; s] [1].
 Definition mk_WD (a s b m : Z) := ix_mfi DISP_WD 17 [K_GROUP; a; s; b; K_MISC; K_MISC; K_MISC; K_MISC] [m; 0].
 Definition mk_RP (a s b m : Z) := ix_mfi DISP_RP 17 [K_GROUP; a; s; b; K_MISC; K_MISC; K_MISC] [m; 0].
 Definition mk_BR (a s b m : Z) := ix_mfi IX_BR 16 [K_GROUP; a; s; b; K_MISC; K_MISC; K_MISC; K_MISC] [m].
